@@ -96,7 +96,22 @@ func n3lRound(t *testing.T, r *kit.Run, n, cases int, thresholds map[int]int) {
 		var kinds []n3.SlotKind
 		who := asc(n)
 		shape := ""
-		switch rng.Intn(8) {
+		switch rng.Intn(10) {
+		case 8:
+			shape = "below-padded-with-garbage"
+			kinds = rp(n3.Valid, T-1)
+			for len(kinds) < T+rng.Intn(2) {
+				kinds = append(kinds, n3.Garbage)
+			}
+			if rng.Intn(2) == 0 {
+				rng.Shuffle(len(kinds), func(a, b int) { kinds[a], kinds[b] = kinds[b], kinds[a] })
+			}
+		case 9:
+			shape = "more-slots-than-keys"
+			kinds = rp(n3.Valid, T-1)
+			for len(kinds) < n+1+rng.Intn(2) {
+				kinds = append(kinds, []n3.SlotKind{n3.Garbage, n3.DupSameSig, n3.Foreign}[rng.Intn(3)])
+			}
 		case 0:
 			shape = "honest"
 			k := T + rng.Intn(2)
